@@ -67,7 +67,8 @@ def _stage_runner(build):
         except Exception as e:  # noqa
             info["exc"] = type(e).__name__
             info["msg"] = str(e)[:200]
-    info["warnings"] = sorted({"%s:%s" % (w.category.__name__, str(w.message)[:80]) for w in wlist if issubclass(w.category, RuntimeWarning)})
+    # any warning category counts: the property asks for "a warning", not for a particular class
+    info["warnings"] = sorted({"%s:%s" % (w.category.__name__, str(w.message)[:80]) for w in wlist})
     return info
 
 
@@ -399,8 +400,8 @@ def judge_bad_setup(name, info):
         return "accepted silently: reached %s without an exception" % info["stage"]
     if info["stage"] == "run_model":
         return "only failed inside run_model (%s), not at or before set-up" % info["exc"]
-    if exc is not None and info["exc"] != exc:
-        return "raised %s where the code's own raise is %s (%s)" % (info["exc"], exc, info["msg"])
+    # The exception *type* is recorded (evidence: error_types_seen) but not demanded: the property asks for "an error
+    # instead of numbers", and turning a NameError into a ValueError would be a legitimate clean-up, not a violation.
     return None
 
 
@@ -910,7 +911,7 @@ def shrink(case, target):
 ASSUMPTIONS = [
     "reference = the same tenant's op list executed alone in a pristine forked child of a process that has imported but never used OpenAeroStruct",
     "sequential user scripts only: OAS and OpenMDAO make no thread-safety claim; thread-level interleaving is outside the property",
-    "error-path table rows are taken from the property statement; the exception type is pinned only where the code's own raise pins it",
+    "error-path table rows are taken from the property statement; any exception raised at or before setup()/final_setup() counts as a loud rejection (type recorded, not demanded); any warning naming the unknown key counts",
     "exploration: a clean batch is evidence, not proof",
 ]
 
